@@ -295,6 +295,7 @@ def run(chk, tier):
              "(it speaks of files written with or without the preamble), recorded here, not a violation")
     from . import shared
     shared.meta_order_ascending(chk, fx, "meta-order-ascending")
+    shared.collector_preamble(chk, fx, "collector-preamble")
     # the two helpers every term of the group length goes through: dicom_len(x) = len rounded up to even, padded(s) appends one pad
     # character exactly when the length is odd
     chk.rule("even-helpers", "meta::dicom_len is (len + 1) & !1 and meta::padded pushes the pad character iff len % 2 == 1")
